@@ -3492,7 +3492,7 @@ Box<ITV>
       seq_var.upper_extend();
     }
 
-    if (!unbounded_lower) {
+    if (!unbounded_lower && ub_var_coeff != 0) {
       // `lb_expr' is revised by removing the `var' component,
       // multiplying by `-' denominator of the lower bound for `var',
       // and adding the lower bound for `var' to the inhomogeneous term.
@@ -3531,7 +3531,7 @@ Box<ITV>
       }
     }
 
-    if (!unbounded_upper) {
+    if (!unbounded_upper && lb_var_coeff != 0) {
       // `ub_expr' is revised by removing the `var' component,
       // multiplying by `-' denominator of the upper bound for `var',
       // and adding the upper bound for `var' to the inhomogeneous term.
